@@ -45,7 +45,8 @@ def rule_one_graph(ck, repo, R):
     ck.decide(len(conds) == 1 and only_eight(conds[0]) and 'self._bonds.items()' in src(nsc.node), R, 'not_special_connectivity:filter', tests,
               f'not_special_connectivity filters bonds by {tests}; only the coordinate order 8 may be ignored', file=nsc.file, line=nsc.lineno, func=nsc.qualname)
     adds = [n for n in ast.walk(nsc.node) if isinstance(n, ast.Assign) and isinstance(n.targets[0], ast.Subscript) and src(n.targets[0].value) == 'bonds']
-    ck.decide(len(adds) == 1, R, 'not_special_connectivity:all-atoms', None, 'not_special_connectivity no longer creates an entry for every atom (isolated atoms count as components)', file=nsc.file, line=nsc.lineno)
+    comps = [n for n in ast.walk(nsc.node) if isinstance(n, ast.DictComp) and 'self._bonds' in src(n.generators[0].iter) and not n.generators[0].ifs and len(n.generators) == 1]
+    ck.decide(len(adds) == 1 or len(comps) == 1, R, 'not_special_connectivity:all-atoms', None, 'not_special_connectivity no longer creates an entry for every atom (isolated atoms count as components)', file=nsc.file, line=nsc.lineno)
     cc = repo.func(f'{RINGS}:Rings.connected_components')
     ck.decide('_connected_components(self._bonds)' in src(cc.node), R, 'connected_components', None, 'connected_components no longer walks the full adjacency', file=cc.file, line=cc.lineno)
     for name, dep in (('atoms_rings', 'self.sssr'), ('atoms_rings_sizes', 'self.atoms_rings')):
